@@ -60,5 +60,6 @@ def gen(tier, rng):
     yield nodegen.close_script(r, "node-close-switch", mode="switch", dev="tap")
     for i in range(6 if thorough else 2):
         yield nodegen.announce_script(r, "node-announce-%d" % i, 120 if thorough else 50)
+    yield nodegen.close_during_attempt_script(r, "node-close-during-attempt")       # removed by close message while an attempt from the same address is pending
 
 obs_class, nontrivial_key = _nodecommon.with_node(obs_class, nontrivial_key)
